@@ -3301,7 +3301,11 @@ func (p *printer) printExpr(expr js_ast.Expr, level js_ast.L, flags printExprFla
 				p.print("*")
 			}
 			p.printSpace()
-			p.printExprWithoutLeadingNewline(e.ValueOrNil, js_ast.LYield, 0)
+			var childFlags printExprFlags
+			if !wrap {
+				childFlags = flags & forbidIn
+			}
+			p.printExprWithoutLeadingNewline(e.ValueOrNil, js_ast.LYield, childFlags)
 		}
 
 		if wrap {
